@@ -52,6 +52,13 @@ def boundary_work(a):
                 argv.append("-e")
                 for i in range(n - 1):      # + root
                     lines.append(b"pipe /p%05d 0644 0 0" % i)
+            elif name == "xattrids":
+                # n distinct xattr sets: the xattr id table (16 bytes per set) fills k metadata blocks exactly at n = 512 k
+                with open(os.path.join(cd, "xattr.txt"), "wb") as f:
+                    for i in range(n):
+                        lines.append(b"pipe /p%05d 0644 0 0" % i)
+                        f.write(b"# file: p%05d\nuser.n=0x%08x\n\n" % (i, i))
+                argv += ["-A", "xattr.txt"]
             else:                           # fragment blocks: two incompressible, distinct 2048 byte tails per 4096 byte fragment block
                 os.makedirs(os.path.join(cd, "in"))
                 r = rng(n, "c03frag")
@@ -67,7 +74,11 @@ def boundary_work(a):
             case.outputs = {"image": "out.sqfs"}
             case.argv = argv + ["-F", "pack.txt", "-D", ".", "out.sqfs"]
             res["case"]["argv"] = case.argv
-            o = pipelines.run_case(bdir, case, cd, "seed %d\nsched random\n" % (n + 1), "plain", timeout=300, cpu=120)
+            o = pipelines.run_case(bdir, case, cd, "seed %d\nsched random\n" % (n + 1), "asan", timeout=300, cpu=120)
+            if o.rc == 77 or o.sig is not None:
+                m = re.search(rb"(AddressSanitizer: [\w-]+|runtime error: [\w ]+)", o.stderr)
+                res["invalid"].append({"clause": "packer-crash:%s" % (m.group(1).decode().replace(" ", "-") if m else o.verdict), "detail": o.stderr[-600:].decode(errors="replace"), "comp": "gzip"})
+                return res
             if o.rc != 0:
                 res["invalid"].append({"clause": "packer-refused-boundary-input", "detail": o.verdict + " " + o.stderr[-200:].decode(errors="replace"), "comp": "gzip"})
                 return res
@@ -76,7 +87,7 @@ def boundary_work(a):
             if not img.ok():
                 res["invalid"].append({"clause": "undecodable", "detail": img.errors[0], "comp": "gzip"})
                 return res
-            got = {"ids": len(img.ids), "export": len(img.export or []), "frags": len(img.frags)}[name]
+            got = {"ids": len(img.ids), "export": len(img.export or []), "frags": len(img.frags), "xattrids": len(img.xattr_sets)}[name]
             if got != n:
                 res["err"] = "boundary case %s: wanted %d table entries, image has %d" % (name, n, got)
             for inv in img.invalid:
@@ -111,7 +122,7 @@ def main():
     tprofs = [{"nfiles": 8, "ndirs": 3, "xattrs": True, "hardlinks": True}, {"nfiles": 6, "ndirs": 2, "big": True}, {"nfiles": 3, "bigdir": 280}]
     titems = [(bdir, derive(seed, "c03tar", i) >> 1, tprofs[i % len(tprofs)]) for i in range(24 if t == "quick" else 400)]
     tres = pmap(tar_work, titems)
-    bitems = [(bdir, name, k * per + d) for name, per in (("ids", 2048), ("export", 1024), ("frags", 512)) for k in ((1,) if t == "quick" else (1, 2, 3))
+    bitems = [(bdir, name, k * per + d) for name, per in (("ids", 2048), ("export", 1024), ("frags", 512), ("xattrids", 512)) for k in ((1,) if t == "quick" else (1, 2, 3))
               for d in (-1, 0, 1)]
     bres = pmap(boundary_work, bitems)
     for r in bres:
